@@ -741,7 +741,7 @@ impl<'layout, 'out> TableWriter<'layout, 'out> {
             self.write_ifunc_relocation::<A>(res)?;
         } else {
             *got_entry = if res.flags.is_address() && self.output_kind.is_relocatable() {
-                self.write_address_relocation::<A>(got_address, res.raw_value)?
+                self.write_address_relocation::<A>(got_address, res.raw_value, true)?
             } else {
                 res.raw_value
             };
@@ -759,7 +759,7 @@ impl<'layout, 'out> TableWriter<'layout, 'out> {
             let got_entry = self.take_next_got_entry()?;
             let plt_address = res.plt_address()?;
             *got_entry = if self.output_kind.is_relocatable() {
-                self.write_address_relocation::<A>(ifunc_got_address, plt_address)?
+                self.write_address_relocation::<A>(ifunc_got_address, plt_address, true)?
             } else {
                 plt_address
             };
@@ -1047,6 +1047,7 @@ impl<'layout, 'out> TableWriter<'layout, 'out> {
         &mut self,
         place: u64,
         relative_address: u64,
+        allow_relr: bool,
     ) -> Result<u64> {
         debug_assert_bail!(
             self.output_kind.is_relocatable(),
@@ -1055,6 +1056,7 @@ impl<'layout, 'out> TableWriter<'layout, 'out> {
         let e = LittleEndian;
         // Odd offsets mean bitmaps in RELR, so we need to fall back to RELA for them.
         if let Some(relr_writer) = &mut self.relr_dyn
+            && allow_relr
             && place.is_multiple_of(2)
         {
             let relr = relr_writer
@@ -2261,6 +2263,7 @@ fn apply_relocations<
             SectionInfo {
                 section_address,
                 is_writable: object_section.is_writable(),
+                allow_relr: object::read::elf::SectionHeader::sh_addralign(object_section, LittleEndian) >= 2,
                 section_flags,
                 part_id: object.section_part_id(section_index, &layout.symbol_db.section_part_ids),
             },
@@ -2506,6 +2509,7 @@ fn write_eh_frame_relocations<'data, A: Arch<Platform = Elf>, R: Relocation>(
                     SectionInfo {
                         section_address: output_pos as u64 + table_writer.eh_frame_start_address,
                         is_writable: false,
+                        allow_relr: false,
                         section_flags,
                         // .eh_frame relocations never need thunks; use the eh_frame section's
                         // base part as a placeholder so the thunk lookup always misses.
@@ -2607,6 +2611,10 @@ impl<'a, 'data, A: Arch<Platform = Elf>, R: Relocation> Display
 struct SectionInfo<S: platform::SectionFlags> {
     section_address: u64,
     is_writable: bool,
+    /// Whether relative relocations in this section may be emitted as RELR. This is only the case
+    /// if the section's alignment guarantees that even offsets are at even addresses. Must match
+    /// the decision made when we allocated space for the relocation.
+    allow_relr: bool,
     section_flags: S,
     part_id: crate::part_id::PartId,
 }
@@ -3520,7 +3528,7 @@ fn write_absolute_relocation<'data, A: Arch<Platform = Elf>>(
             &layout.merged_strings,
             &layout.merged_string_start_addresses,
         )?;
-        table_writer.write_address_relocation::<A>(place, address)
+        table_writer.write_address_relocation::<A>(place, address, section_info.allow_relr)
     } else {
         resolution.value_with_addend(
             addend,
